@@ -217,19 +217,37 @@ def save_mode():
     pb = body_of(sp, r"\bSaveOutputPlugin::ReviewLinkOutput\s*\(")
     if pb is None:
         return "SaveUnknown", "SaveOutputPlugin::ReviewLinkOutput not found"
-    saves = re.findall(r"SaveToFile\s*\(\s*(\w+)\s*\)", pb)
+    if re.search(r"->\s*SaveToFileAtomically\s*\(\s*file_path\s*\)", pb) and not re.search(r"->\s*SaveToFile\s*\(", pb):
+        # the write-then-rename is a method of ConfigData
+        ab = body_of(cd, r"\bConfigData::SaveToFileAtomically\s*\(")
+        if ab is None:
+            return "SaveUnknown", "ConfigData::SaveToFileAtomically not found"
+        return rename_shape(ab, r"\bSaveToFile\s*\(\s*(\w+)\s*\)", "ConfigData::SaveToFileAtomically")
+    return rename_shape(pb, r"->\s*SaveToFile\s*\(\s*(\w+)\s*\)", "SaveOutputPlugin")
+
+
+def rename_shape(body, save_re, where):
+    """SaveToFile(<tmp derived from file_path>), failure returns before, then rename(<tmp>, file_path)"""
+    saves = re.findall(save_re, body)
+    saves = [x for x in saves if x != "file_path"] or saves
     if len(saves) != 1:
-        return "SaveUnknown", "SaveOutputPlugin: SaveToFile calls: %r" % saves
+        return "SaveUnknown", "%s: SaveToFile calls: %r" % (where, saves)
     if saves[0] == "file_path":
-        return "InPlace", "std::ofstream out(file_path.c_str()) and SaveOutputPlugin saves to file_path"
+        return "InPlace", "std::ofstream out(file_path.c_str()) and %s saves to file_path" % where
     tmp = saves[0]
-    sv = pb.find("SaveToFile")
-    ren = re.search(r"\brename\s*\(\s*%s\s*,\s*file_path\b" % re.escape(tmp), pb)
-    derived = re.search(r"\b%s\s*\+=|\b%s\s*\(\s*file_path" % (tmp, tmp), pb)
-    early = re.search(r"if\s*\(\s*!\s*resource->data->SaveToFile\s*\(\s*%s\s*\)\s*\)\s*\{?\s*return\s+false" % re.escape(tmp), pb)
-    if ren and derived and early and sv < ren.start():
-        return "TempRename", "SaveOutputPlugin: SaveToFile(%s) (stream closed on return), then rename(%s, file_path)" % (tmp, tmp)
-    return "SaveUnknown", "SaveOutputPlugin: temporary %s without the save/rename shape" % tmp
+    sv = re.search(r"SaveToFile\s*\(\s*%s\s*\)" % re.escape(tmp), body)
+    ren = re.search(r"\brename\s*\(\s*%s\s*,\s*file_path\b" % re.escape(tmp), body)
+    derived = re.search(r"\b%s\s*\+=|\b%s\s*\(\s*file_path" % (tmp, tmp), body)
+    if not (sv and ren and derived and sv.start() < ren.start()):
+        return "SaveUnknown", "%s: temporary %s without the save/rename shape" % (where, tmp)
+    between = body[sv.start():ren.start()]
+    # a failed save must return before the rename
+    early = re.search(r"if\s*\(\s*!\s*(?:resource->data->)?SaveToFile\s*\(\s*%s\s*\)\s*\)\s*\{?\s*return\s+false" % re.escape(tmp), body) or \
+        (re.search(r"bool\s+(\w+)\s*=\s*SaveToFile\s*\(\s*%s\s*\)" % re.escape(tmp), body) and
+         re.search(r"if\s*\(\s*!\s*\w+\s*\)\s*\{?\s*return\s+false", between))
+    if not early:
+        return "SaveUnknown", "%s: the rename is not guarded by the result of the save" % where
+    return "TempRename", "%s: SaveToFile(%s) (stream closed on return), then rename(%s, file_path)" % (where, tmp, tmp)
 
 
 def stamp_last():
